@@ -92,6 +92,14 @@ class C09(Prop):
                 yield {"kind": "runs2", "programs": [prog_a, [{"name": "g0", "nodes": [dict(na, dataOuts=perm)], "bound": []}]],
                        "values": [["x", rng.randint(0, 5)]], "backend": rng.choice(["mem", "lru2", "disk"]), "runner": rng.choice(["sync", "async"])}
                 continue
+            if 0.23 <= r < 0.26:
+                # two DIFFERENT definitions without retrievable source whose bytecode differs only in a referenced name
+                m1, m2 = rng.sample(["upper", "lower", "title", "swapcase"], 2)
+                mk = lambda m: [{"name": "g0", "nodes": [{"name": "na", "kind": "fn", "params": [["x", None]], "dataOuts": ["out"],  # noqa: E731
+                                                          "body": {"b": "strAttr", "t": "s", "m": m}, "cache": True}], "bound": []}]
+                yield {"kind": "runs2", "programs": [mk(m1), mk(m2)], "values": [["x", rng.choice(["aB", "Hello wORLD", "x"])]],
+                       "backend": rng.choice(["mem", "lru2", "disk"]), "runner": rng.choice(["sync", "async"]), "share": False}
+                continue
             if 0.19 <= r < 0.23:
                 # a cacheable interrupt: paused, resumed with a human's answer, then run again WITHOUT an answer (and with another answer)
                 x = rng.randint(0, 3)
@@ -162,6 +170,11 @@ class C09(Prop):
             else:
                 steps = []
                 keys = ["k1", "k2"]
+                if rng.random() < 0.4:
+                    # an entry that has ALREADY been served by this instance is damaged afterwards (payload only, signature intact)
+                    k0 = rng.choice(keys)
+                    steps += [{"t": "set", "k": k0, "v": rng.randint(0, 9)}, {"t": "get", "k": k0},
+                              {"t": rng.choice(["payload_flip", "payload_trunc", "payload_type"]), "k": k0}, {"t": "get", "k": k0}]
                 for _ in range(rng.randint(3, 10)):
                     k = rng.choice(keys)
                     t = rng.random()
@@ -242,7 +255,7 @@ class C09(Prop):
             for prog in case["programs"] + case["programs"]:
                 # share the function object across the graphs: the second build reuses env.funcs of the first
                 spec = prog[0]["nodes"][0]
-                if "0:na" in env.funcs:
+                if "0:na" in env.funcs and case.get("share", True):
                     spec = dict(spec, sameFuncAs="na")
                     prog = [{**prog[0], "nodes": [spec] + prog[0]["nodes"][1:]}]
                 ref = impl.run_case(prog, None, case["values"], {}, case["runner"], async_bodies=False, env=env)
